@@ -6,7 +6,7 @@
    Entry points whose decoding is generated / third-party code are harness-only: [CObserved]. *)
 From Coq Require Import List NArith Bool Arith.
 Import ListNotations.
-From AnySync Require Export Model.Decoders.
+From AnySync Require Export Model.Decoders Model.DecodersTree.
 Open Scope N_scope.
 
 (* Byte strings are written as ONE hexadecimal numeral (parsing a list literal of thousands of numerals dominates
@@ -75,6 +75,12 @@ Inductive case :=
 | CAclApply (should_validate : bool) (cs : list acl_content) (obs : cls)
 (* (7) head-sync request: element hashes, ranges (from, to, elements, limit), class, (Count, #elements) per range *)
 | CRanges (elems : list N) (ranges : list (N * N * bool * N)) (obs : cls) (res : list (N * N))
+(* (9) objectTree.AddRawChanges on a real object tree holding [root]: a stream of batches of raw changes with
+   hostile parent references / delivery orders ([valid] = validateTree accepted the batch), one observed row
+   (class, Added ids, heads) per delivered batch (delivery stops at the first batch that is not accepted), then an
+   honest AddContent ([follow_ok]) and a rebuild from storage ([rebuilt_same] heads).  Ids are order-preserving
+   ranks of the id strings. *)
+| CTreeAdd (root : change) (batches : list (list change * bool)) (rows : list ta_row) (follow_ok rebuilt_same : bool)
 (* harness-only entry points: name code, input size, observed class *)
 | CObserved (entry : N) (size : N) (obs : cls).
 
@@ -91,6 +97,7 @@ Definition model_class (c : case) : option cls :=
             else if which =? 2 then class_of (incoming_proto_handshake env pool_buf s)
             else class_of (outgoing_proto_handshake env pool_buf s))
   | CStall _ _ _ _ _ _ _ => None   (* per stall point: [stall_ok] *)
+  | CTreeAdd _ _ _ _ _ => None     (* per batch: [treeadd_ok] *)
   | CKeepFast data ours_id _ _ => Some (class_of (keep_identity_fast (bytes_eqb ours_id) data))
   | CTopic topic _ _ _ => Some (class_of (validate_topic topic))
   | CDedup id _ => Some (class_of (dedup_key id))
@@ -121,9 +128,29 @@ Fixpoint worst (l : list cls) : cls :=
   | c :: r => if spec_C11 c then (match worst r with COk => c | w => w end) else c
   end.
 
+(* a batch stream: the model's rows against the observed rows (class; for an accepted batch the SET of reported
+   changes and the heads) *)
+Definition ta_row_eqb (m o : ta_row) : bool :=
+  let '(mc, madded, mheads) := m in
+  let '(oc, oadded, oheads) := o in
+  cls_eqb mc oc && match oc with COk => same_set madded oadded && same_set mheads oheads | _ => true end.
+Fixpoint ta_rows_eqb (m o : list ta_row) : bool :=
+  match m, o with
+  | [], [] => true
+  | x :: m', y :: o' => ta_row_eqb x y && ta_rows_eqb m' o'
+  | _, _ => false
+  end.
+Definition treeadd_ok (root : change) (batches : list (list change * bool)) (rows : list ta_row) : bool :=
+  ta_rows_eqb (add_raw_run (ta_init root) batches) rows.
+
 Definition observed (c : case) : cls :=
   match c with
   | CStall _ _ _ _ _ _ pts => worst (map (fun pt => snd (fst pt)) pts)
+  | CTreeAdd _ _ rows fo rb =>
+      match worst (map (fun r => fst (fst r)) rows) with
+      | COk | CErr => if fo && rb then worst (map (fun r => fst (fst r)) rows) else CPanic
+      | w => w
+      end
   | CX25519 _ _ o | CEdDecrypt _ _ o | CAes _ _ _ o | CHandshake _ _ _ _ _ o | CObserved _ _ o
   | CKeepFast _ _ o _ | CTopic _ o _ _ | CDedup _ o | CCreatePayload _ _ _ _ o | CAclApply _ _ o | CRanges _ _ o _ => o
   end.
@@ -162,18 +189,20 @@ Definition model_detail_ok (c : case) : bool :=
          | _, _ => false
          end) ranges res
   | CStall which kind wm stream rows cred_ok pts => forallb (stall_ok which kind wm stream rows cred_ok) pts
+  | CTreeAdd root batches rows _ _ => treeadd_ok root batches rows
   | _ => true
   end.
 
 Definition model_ok (c : case) : bool :=
   match model_class c with
   | Some m => cls_eqb m (observed c) && model_detail_ok c
-  | None => match c with CStall _ _ _ _ _ _ _ => model_detail_ok c | _ => true end
+  | None => match c with CStall _ _ _ _ _ _ _ | CTreeAdd _ _ _ _ _ => model_detail_ok c | _ => true end
   end.
 
 Definition spec_ok (c : case) : bool :=
   match c with
   | CStall _ _ _ _ _ _ pts => spec_C11_stall (map (fun pt => snd (fst pt)) pts)
+  | CTreeAdd _ batches rows fo rb => spec_C11_treeadd (map fst batches) rows fo rb
   | _ => spec_C11 (observed c)
   end.
 
